@@ -98,6 +98,10 @@ pub struct CCase {
     pub seed2: u64,
     #[serde(default)]
     pub fmt: String,
+    /// edge operations applied to the member nodes after the container has
+    /// been used once (scc() / serialised); the container is then used again
+    #[serde(default)]
+    pub then: Vec<Op>,
 }
 
 impl CCase {
@@ -109,6 +113,9 @@ impl CCase {
         s += &format!("graph with nodes inserted in order {:?}, hash seed {}", self.insertion, self.seed);
         if !self.fmt.is_empty() {
             s += &format!("; {} round trip (new graph: seed {})", self.fmt, self.seed2);
+        }
+        if !self.then.is_empty() {
+            s += &format!("; then {} and the same container is used again", show_history(&self.then));
         }
         s
     }
@@ -179,7 +186,57 @@ pub fn check_scc<F: Fl>(c: &CCase) -> Result<String, (String, String)> {
         let code = if split { "scc/component-split" } else { "scc/components-merged" };
         return Err((code.into(), detail("the partition differs")));
     }
+    if !c.then.is_empty() {
+        // the edges change through the node handles, the container is the same object
+        for op in &c.then {
+            if let Ret::Fail(f) = w.apply(op) {
+                return Err((format!("scc-after-mutation/{}-{}", op.name(), f.kind()), format!("{}: {} did not return: {}", c.program(F::NAME), op.show(), f.msg())));
+            }
+        }
+        let now = w.observe_raw();
+        let conns2: Vec<(K, K)> = now.iter().flat_map(|o| o.out.iter().map(|a| (a.0, a.1))).collect();
+        let m2 = GModel::new(c.n, true, &conns2, &vals);
+        let exp2 = ref_scc(&m2);
+        let res2 = match guarded(|| F::g_scc(&g).expect("directed flavour")) {
+            Ok(r) => r,
+            Err(f) => return Err((format!("scc-after-mutation/{}", f.kind()), format!("{}: scc() did not return: {}", c.program(F::NAME), f.msg()))),
+        };
+        let got2: BTreeSet<BTreeSet<K>> = res2.iter().map(|b| b.iter().map(F::key).collect()).collect();
+        let total: usize = res2.iter().map(|b| b.len()).sum();
+        if got2 != exp2 || total != c.n {
+            return Err(("scc-after-mutation/partition".into(), format!("{}: scc() after the mutation = {:?}; strongly connected components of the graph as it is now {:?} are {:?}", c.program(F::NAME), res2.iter().map(|b| b.iter().map(F::key).collect::<Vec<K>>()).collect::<Vec<_>>(), conns2, exp2)));
+        }
+    }
     Ok(format!("{:?}", got))
+}
+
+/// Edge operations to apply between two uses of one container: every single
+/// connect, disconnect and isolate, and every move of one edge (disconnect
+/// one, connect another: the number of edges stays the same).
+pub fn mutations(n: usize, conns: &[(K, K)]) -> Vec<Vec<Op>> {
+    let mut out: Vec<Vec<Op>> = Vec::new();
+    let e = (conns.len() + 1) as E;
+    let mut pairs: Vec<(K, K)> = conns.to_vec();
+    pairs.sort();
+    pairs.dedup();
+    for u in 0..n as K {
+        out.push(vec![Op::Isolate(u)]);
+        for v in 0..n as K {
+            out.push(vec![Op::Connect(u, v, e)]);
+        }
+    }
+    for (a, b) in &pairs {
+        out.push(vec![Op::Disconnect(*a, *b)]);
+        for u in 0..n as K {
+            for v in 0..n as K {
+                if (u, v) != (*a, *b) {
+                    out.push(vec![Op::Disconnect(*a, *b), Op::Connect(u, v, e)]);
+                    out.push(vec![Op::Connect(u, v, e), Op::Disconnect(*a, *b)]);
+                }
+            }
+        }
+    }
+    out
 }
 
 fn incident<F: Fl>(n: &F::Node) -> Vec<Arc3> {
@@ -194,6 +251,14 @@ pub fn check_roundtrip<F: Fl>(c: &CCase) -> Result<String, (String, String)> {
     let g = container::<F>(&w, &c.insertion, c.seed);
     let first = roundtrip_once::<F>(c, &w, &g)?;
     roundtrip_once::<F>(c, &w, &g).map_err(|(code, d)| (code, format!("second serialisation of the same graph: {}", d)))?;
+    if !c.then.is_empty() {
+        for op in &c.then {
+            if let Ret::Fail(f) = w.apply(op) {
+                return Err((format!("serde-after-mutation/{}-{}", op.name(), f.kind()), format!("{}: {} did not return: {}", c.program(F::NAME), op.show(), f.msg())));
+            }
+        }
+        roundtrip_once::<F>(c, &w, &g).map_err(|(code, d)| (code.replacen("serde/", "serde-after-mutation/", 1), format!("serialisation after the mutation: {}", d)))?;
+    }
     Ok(first)
 }
 
@@ -279,6 +344,10 @@ pub struct CParams {
     /// fixed hash seeds; iteration orders are not enumerable at that size)
     #[serde(default)]
     pub large: usize,
+    /// also use every container a second time after every single edge
+    /// operation / edge move applied through the node handles
+    #[serde(default)]
+    pub mutate: bool,
 }
 
 pub fn sweep<F: Fl>(job: &Job, out: &mut Out) {
@@ -296,7 +365,7 @@ pub fn sweep<F: Fl>(job: &Job, out: &mut Out) {
                 let fmts: &[&str] = if prop == "C12" { &["json", "cbor"] } else { &[""] };
                 for fmt in fmts {
                     crate::progress::tick();
-                    let c = CCase { n: *n, conns: conns.clone(), insertion: ins.clone(), seed, seed2: seed + 11, fmt: fmt.to_string() };
+                    let c = CCase { n: *n, conns: conns.clone(), insertion: ins.clone(), seed, seed2: seed + 11, fmt: fmt.to_string(), then: vec![] };
                     out.stats.inc("evaluations");
                     out.stats.inc("nontrivial");
                     out.stats.max("max_nodes", *n as u64);
@@ -326,12 +395,32 @@ pub fn sweep<F: Fl>(job: &Job, out: &mut Out) {
         }
         out.stats.inc("shapes");
         crate::progress::set_case(|| json!({"kind":"csweep-shape","flavour":F::NAME,"n":p.n,"conns":conns}).to_string());
+        // the same container used again after the edges changed underneath it
+        if p.mutate && crate::gsweep::churn() == 0 {
+            let seeds: Vec<u64> = tables[0].iter().map(|(s, _)| *s).take(2).collect();
+            for then in mutations(p.n, conns) {
+                for seed in &seeds {
+                    let fmts: &[&str] = if prop == "C12" { &["json", "cbor"] } else { &[""] };
+                    for fmt in fmts {
+                        crate::progress::tick();
+                        let c = CCase { n: p.n, conns: conns.clone(), insertion: insertions[0].clone(), seed: *seed, seed2: seed.wrapping_mul(7).wrapping_add(3), fmt: fmt.to_string(), then: then.clone() };
+                        out.stats.inc("evaluations");
+                        out.stats.inc("reuse_after_mutation");
+                        out.stats.inc("nontrivial");
+                        let r = if prop == "C11" { check_scc::<F>(&c) } else { check_roundtrip::<F>(&c) };
+                        if let Err((class, what)) = r {
+                            out.report(Violation { property: prop.into(), engine: "csweep".into(), flavour: F::NAME.into(), class, what, case: json!({"kind":"csweep","flavour":F::NAME,"case":c,"program":c.program(F::NAME)}), order: (conns.len() * 100 + p.n + 50) as u64 });
+                        }
+                    }
+                }
+            }
+        }
         for (ii, ins) in insertions.iter().enumerate() {
             for (seed, _) in &tables[ii] {
                 let fmts: &[&str] = if prop == "C12" { &["json", "cbor"] } else { &[""] };
                 for fmt in fmts {
                     crate::progress::tick();
-                    let c = CCase { n: p.n, conns: conns.clone(), insertion: ins.clone(), seed: *seed, seed2: seed.wrapping_mul(7).wrapping_add(3), fmt: fmt.to_string() };
+                    let c = CCase { n: p.n, conns: conns.clone(), insertion: ins.clone(), seed: *seed, seed2: seed.wrapping_mul(7).wrapping_add(3), fmt: fmt.to_string(), then: vec![] };
                     out.stats.inc("evaluations");
                     let r = if prop == "C11" { check_scc::<F>(&c) } else { check_roundtrip::<F>(&c) };
                     match r {
@@ -374,7 +463,7 @@ pub fn replay<F: Fl>(prop: &str, case: &Value) -> Vec<Violation> {
             let asc: Vec<K> = (0..n as K).collect();
             for (seed, _) in seed_table::<F>(n, &asc, 4096) {
                 for fmt in if prop == "C12" { vec!["json", "cbor"] } else { vec![""] } {
-                    let c = CCase { n, conns: conns.clone(), insertion: asc.clone(), seed, seed2: seed + 1, fmt: fmt.into() };
+                    let c = CCase { n, conns: conns.clone(), insertion: asc.clone(), seed, seed2: seed + 1, fmt: fmt.into(), then: vec![] };
                     let r = if prop == "C11" { check_scc::<F>(&c) } else { check_roundtrip::<F>(&c) };
                     if let Err((class, what)) = r {
                         out.report(Violation { property: prop.into(), engine: "csweep".into(), flavour: F::NAME.into(), class, what, case: case.clone(), order: 0 });
